@@ -21,7 +21,9 @@ vars == <<mode, strict, calls, doc, pc, fail, links, tuple>>
 
 \* a response element: [id, body \in {"result","error","both","neither"}]; ids are tags: "i1".."i4" (integers the client
 \* generated), "s1".. (the same digits as a STRING), "i9" (nobody asked), "null"
-ElemOk(e) == e.body \in {"result", "error"}
+\* "btrue" (the JSON boolean true) and "f1_0" (the float 1.0) are not ids at all - although Python compares both equal to 1
+BadIds == {"btrue", "f1_0"}
+ElemOk(e) == e.body \in {"result", "error"} /\ e.id \notin BadIds
 NonNull(s) == {j \in DOMAIN s : s[j].id # "null"}
 HasDupIds(s) == \E j, k \in NonNull(s) : j < k /\ s[j].id = s[k].id
 CallPositions == {p \in DOMAIN calls : calls[p] # "notif"}
